@@ -58,9 +58,23 @@ def _run_chunk(args):
     warnings.simplefilter('ignore')
     j = JOBS[name]
     out = []
+    import signal
+
+    def _alarm(signum, frame):
+        raise TimeoutError('case exceeded the per-case time limit')
+    try:
+        from . import safe_pool
+        safe_pool.install()
+    except Exception:
+        pass
     for c in cases:
         try:
-            r = j.run(c)
+            signal.signal(signal.SIGALRM, _alarm)
+            signal.alarm(int(getattr(j, 'case_timeout', 300)))
+            try:
+                r = j.run(c)
+            finally:
+                signal.alarm(0)
         except Exception as e:      # the oracle itself must not crash: report as checker error
             r = 'CHECKER-ERROR ' + ''.join(traceback.format_exception_only(type(e), e)).strip() + \
                 ' @ ' + traceback.format_tb(e.__traceback__)[-1].strip().replace('\n', ' | ')
